@@ -14,6 +14,7 @@ Env(n, d) == IF n \in DOMAIN IOEnv THEN IOEnv[n] ELSE d
 
 A == V("A")  Tt == V("T")
 Prefix == << Let("$S", I(5)), Let("A", I(1)), Let("T", Call("tab", <<I(2), I(1)>>)), Let("U", Call("tup", <<I(1), Str("a")>>)),
+             Let("E", I(0)), Let("B", I(0)), Let("K", I(0)),          \* names the victims use as loop variables exist before
              Func("F", <<"X">>, <<Return(Bin("+", V("X"), I(1)))>>),
              Func("G", <<"X">>, <<Return(Bin("*", V("X"), I(2)))>>),
              Func("G", <<"X", "Y">>, <<Return(Bin("-", V("X"), V("Y")))>>) >>
@@ -28,14 +29,21 @@ Victims == <<
   << IfN(<<[c |-> Bin(">", A, I(0)), b |-> <<Let("A2", Str("s"))>>], [c |-> Bin("<", A, I(0)), b |-> <<Let("T", I(1))>>]>>, <<Let("$S", I(7))>>), PrintS(<<A>>) >>,
   << While(Bin("<", Mem(Tt, "count", <<>>), I(4)), <<Do(Mem(Tt, "concat", <<I(1)>>)), Let("W", Mem(Tt, "at", <<I(0)>>))>>), Let("A", V("W")) >>,
   << Let("A", Str("s")), Let("T", Bin("+", A, Str("t"))), Let("U", Mem(V("T"), "count", <<>>)), Func("F", <<"X">>, <<Return(I(0))>>), Let("A", I(2)) >>,
-  << Func("F", <<"X">>, <<Return(I(100))>>), Func("G", <<"X">>, <<Return(I(200))>>), Func("G", <<"X", "Y">>, <<Return(I(300))>>), Let("A", I(3)) >>
+  << Func("F", <<"X">>, <<Return(I(100))>>), Func("G", <<"X">>, <<Return(I(200))>>), Func("G", <<"X", "Y">>, <<Return(I(300))>>), Let("A", I(3)) >>,
+  \* loops nested over the same table, loop variables that existed before (their constraints and locks are at stake)
+  << Forall("E", Tt, "auto", <<Forall("B", Tt, "auto", <<Let("A", Bin("+", V("B"), V("E"))), Let("$S", Bin("+", V("$S"), V("B")))>>), Let("E", Bin("+", V("E"), I(1)))>>), PrintS(<<A>>) >>,
+  << For("K", I(1), I(2), NoExpr, "auto", <<For("B", I(1), V("K"), NoExpr, "desc", <<Let("A", Bin("*", V("B"), V("K")))>>), While(Bin("<", A, I(0)), <<Let("A", Bin("+", A, I(1))), Break>>)>>), PrintS(<<A>>) >>,
+  << Begin(<<Forall("E", Tt, "auto", <<Begin(<<Let("A", Bin("/", V("E"), I(0)))>>, <<When("DIVIDE_BY_ZERO", <<Let("A", I(7))>>)>>)>>)>>, <<When("OTHERS", <<Let("A", I(8))>>)>>), PrintS(<<A>>) >>,
+  << While(Bin("<", A, I(3)), <<Let("A", Bin("+", A, I(1))), Break>>), If(Bin(">", A, I(0)), <<Nop>>, <<Nop>>), For("K", I(1), I(1), NoExpr, "auto", <<Nop>>), Begin(<<Nop>>, <<>>), PrintS(<<A>>) >>
 >>
 
 Probe == << PrintS(<<UCall("F", <<I(1)>>), Str(" "), UCall("G", <<I(2)>>), Str(" "), UCall("G", <<I(5), I(2)>>), Str(" "), A, Str(" "), V("$S"), Str(" "), Mem(Tt, "count", <<>>), Str(" "), Item(V("U"), 2)>>),
             Let("A", Bin("+", A, I(1))), Let("$S", Bin("+", V("$S"), I(1))), Do(Mem(Tt, "concat", <<I(5)>>)),
             For("I", I(1), I(2), NoExpr, "auto", <<PutS(<<V("I")>>)>>), Forall("E", Tt, "auto", <<PutS(<<V("E")>>)>>),
             Begin(<<RaiseS("E1")>>, <<When("E1", <<PrintS(<<Str("h")>>)>>)>>),
-            Let("A", Str("retyped")), Let("I", Str("s")), Let("E", Str("s")) >>
+            Func("NEWF", <<"X">>, <<Return(Bin("+", V("X"), I(5)))>>), PrintS(<<UCall("NEWF", <<I(1)>>)>>),
+            Forall("B", Tt, "auto", <<Let("B", Bin("+", V("B"), I(1)))>>), For("K", I(1), I(2), NoExpr, "auto", <<PutS(<<V("K")>>)>>),
+            Let("A", Str("retyped")), Let("I", Str("s")), Let("E", Str("s")), Let("B", Str("s")), Let("K", Str("s")) >>
 
 Garbage == <<")", "end", "@", "loop", "\"", "0x", "function">>
 Thorough == Env("VERIF_TIER", "quick") = "thorough"
@@ -61,9 +69,22 @@ Derived(vi) ==
              \cup {[how |-> "swap", t |-> SubSeq(tk, 1, k - 1) \o <<tk[k + 1], tk[k]>> \o SubSeq(tk, k + 2, Len(tk))] : k \in 1..(Len(tk) - 1)}
         ELSE {})
 
+\* AST-level edits: one nested body (loop, block, handler, branch, function) loses all its statements - not a valid text
+RECURSIVE Emptied(_), EmptiedIn(_)
+EmptiedIn(s) ==   \* variants of statement s in which one (nested) body has lost all its statements
+  CASE s.k \in {"while", "for", "forall", "func"} -> {[s EXCEPT !.b = <<>>]} \cup {[s EXCEPT !.b = x] : x \in Emptied(s.b)}
+    [] s.k = "begin" -> {[s EXCEPT !.b = <<>>]} \cup {[s EXCEPT !.b = x] : x \in Emptied(s.b)}
+                        \cup UNION {{[s EXCEPT !.hs[j].b = <<>>]} \cup {[s EXCEPT !.hs[j].b = x] : x \in Emptied(s.hs[j].b)} : j \in DOMAIN s.hs}
+    [] s.k = "if" -> UNION {{[s EXCEPT !.cs[j].b = <<>>]} \cup {[s EXCEPT !.cs[j].b = x] : x \in Emptied(s.cs[j].b)} : j \in DOMAIN s.cs}
+                     \cup (IF s.el = <<>> THEN {} ELSE {[s EXCEPT !.el = x] : x \in Emptied(s.el)})
+    [] OTHER -> {}
+Emptied(ss) == UNION {{[ss EXCEPT ![j] = x] : x \in EmptiedIn(ss[j])} : j \in DOMAIN ss}
+StmtDeleted(vi) == {[how |-> "sdel", t |-> Tokens(x)] : x \in Emptied(vi)}
+
 VARIABLE p
 Init == p \in UNION {{[v |-> v, d |-> x] : x \in Derived(Victims[v])} : v \in DOMAIN Victims}
               \cup {[v |-> v, d |-> [how |-> "whole", t |-> Tokens(Victims[v])]] : v \in DOMAIN Victims}
+              \cup UNION {{[v |-> v, d |-> x] : x \in StmtDeleted(Victims[v])} : v \in DOMAIN Victims}
 Next == UNCHANGED p
 Scenario(q) ==
   LET mode == Env("GEN_MODE", "exec") IN
